@@ -5,7 +5,7 @@
    Values are exact: every number is carried as its numerator in eighths (Z). *)
 From Coq Require Import ZArith List Bool Arith String Ascii Lia.
 Import ListNotations.
-Open Scope string_scope.
+Local Open Scope string_scope.
 Local Notation length := List.length (only parsing).
 
 (* ------------------------------------------------------------------------------------ values *)
